@@ -125,7 +125,7 @@ static std::map<std::string, std::vector<uintptr_t>> gHotCache;    // tuple -> h
 
 static std::string golden(bsx::Ctx& c, int op, int salt) {
 	int key = op * 16 + salt; auto it = gGolden.find(key); if (it != gGolden.end()) return it->second;
-	std::string r = c.isolate([&] { ThreadArg a{op, salt, {}}; threadBody(&a); return a.result; }, 20);
+	std::string r = c.isolate([&] { ThreadArg a{op, salt, {}}; threadBody(&a); return a.result; }, 90);
 	return gGolden[key] = r.rfind("ok:", 0) == 0 ? r.substr(3) : "FATAL " + r;
 }
 
@@ -151,7 +151,7 @@ static void body(bsx::Ctx& c) {
 				rt::reset(false, true); ThreadArg args[3]; int order[3] = {first, (first + 1) % nthreads, (first + 2) % nthreads};
 				for (int t = 0; t < nthreads; ++t) { args[t].op = ops[order[t]]; args[t].salt = order[t] + 1; rt::spawn(threadBody, &args[t]); }
 				rt::run(decideSequential, nullptr);
-				uintptr_t buf[4096]; size_t n = std::min<size_t>(rt::newHot(buf, 4096), 4096); std::string s; for (size_t i = 0; i < n; ++i) s += bsx::fmt("%lx,", static_cast<unsigned long>(buf[i])); return s; }, 30);
+				uintptr_t buf[4096]; size_t n = std::min<size_t>(rt::newHot(buf, 4096), 4096); std::string s; for (size_t i = 0; i < n; ++i) s += bsx::fmt("%lx,", static_cast<unsigned long>(buf[i])); return s; }, 90);
 			if (r.rfind("ok:", 0) != 0) { c.violation(sigbase + "/out=" + r, "sequential discovery run did not survive: " + r); return; }
 			for (size_t p = 3; p < r.size();) { size_t e = r.find(',', p); if (e == std::string::npos) break; cells.insert(strtoul(r.c_str() + p, nullptr, 16)); p = e + 1; }
 		}
